@@ -1147,10 +1147,10 @@ func runStress(r *hx.Run) {
 	if r.Scale > 1 {
 		rounds = rounds * 2 / 5 // thorough: 32 000 rounds under the race detector (the tier has to fit into 20 minutes)
 	}
-	// the barrier rounds come first: their failing inputs are on file before a broken list can crash or hang a later round
-	kinds := []string{"barrier-var", "barrier-set", "barrier-event", "var", "set", "dset", "var", "crowd-var", "set", "event", "dset", "crowd-set", "var", "set", "crowd-event",
-		"var", "set", "dset", "crowd-var", "event", "set", "crowd-dset", "var", "varx", "varx", "varx", "varx", "varx", "walk-var", "twin-var", "twin-set", "twin-event",
-		"window-var", "window-set", "window-event"}
+	// the barrier and window rounds come first: their failing inputs are on file before a broken list / hand-off can crash or
+	// hang a later round
+	kinds := []string{"barrier-var", "barrier-set", "barrier-event", "window-var", "window-set", "window-event", "var", "set", "dset", "var", "crowd-var", "set", "event", "dset", "crowd-set", "var", "set", "crowd-event",
+		"var", "set", "dset", "crowd-var", "event", "set", "crowd-dset", "var", "varx", "varx", "varx", "varx", "varx", "walk-var", "twin-var", "twin-set", "twin-event"}
 	for i := 0; i < rounds; i++ {
 		seed := r.Rng.U64()
 		kind := kinds[i%len(kinds)]
